@@ -439,6 +439,9 @@ type overlayTest struct {
 // VERIF-OVERFLOW when the machine result differs from the mathematical one.
 var overlayReplace = map[string]string{}
 
+// overlayRace: run the overlay tests under the race detector (set by runBounded for one run)
+var overlayRace bool
+
 const ovfHelpers = `//go:build verif
 
 package PKG
@@ -581,7 +584,12 @@ func runOverlayTests(w *World, tests []overlayTest, dir string, extraFiles ...st
 	ovb, _ := json.Marshal(ov)
 	ovFile := filepath.Join(dir, "overlay.json")
 	os.WriteFile(ovFile, ovb, 0o644)
-	cmd := exec.Command("go", "test", "-tags", "verif", "-overlay", ovFile, "-v", "-vet=off", "-count=1", "-timeout", "900s", "-run", "^TestVerif", ".")
+	args := []string{"test", "-tags", "verif", "-overlay", ovFile, "-v", "-vet=off", "-count=1", "-timeout", "900s", "-run", "^TestVerif", "."}
+	if overlayRace {
+		// a bounded stand-in asked for the race detector (header "race: true")
+		args = append([]string{"test", "-race"}, args[1:]...)
+	}
+	cmd := exec.Command("go", args...)
 	cmd.Dir = w.prog.RepoDir
 	cmd.Env = append(os.Environ(), "GOFLAGS=-mod=mod", "GOPROXY=off")
 	// the default go (auto-switching to the repo's toolchain) must come first on PATH
